@@ -237,7 +237,17 @@ fn run_store<S: SigT, V: Val, ST: SigStore<S, V>>(cx: &mut Ctx, mut store: ST, c
 
 fn run_sv<S: SigT, V: Val>(cx: &mut Ctx, c: &Case) -> R {
     if c.offline {
-        let st = cx.must("new_offline", || new_offline::<S, V>(c.bucket_bits, c.max_shard_bits, None).map_err(|e| e.to_string()))?;
+        // the expected number of keys is only a hint: absent, exact, too small, far too large
+        let n = c.pairs.len();
+        let hint = match (n + c.bucket_bits as usize + c.shard_bits as usize) % 6 {
+            0 | 1 => None,
+            2 => Some(n),
+            3 => Some(n / 2),
+            4 => Some(n * 10 + 100_000),
+            _ => Some(1usize << 24),
+        };
+        cx.label_if(hint.is_some_and(|h| h > 2 * n + 1000), "offline_hint_overestimates");
+        let st = cx.must("new_offline", || new_offline::<S, V>(c.bucket_bits, c.max_shard_bits, hint).map_err(|e| e.to_string()))?;
         match st {
             Ok(st) => run_store::<S, V, _>(cx, st, c),
             Err(e) => Err(Fail::mismatch("new_offline.err", format!("new_offline failed: {e}"))),
@@ -305,7 +315,7 @@ impl Property for C18 {
         ]
     }
     fn rule(&self) -> &'static str {
-        "case = (signature type in {[u64;1],[u64;2]}, value type in {u8,u64,usize,EmptyVal}, online/offline, bucket bits 0..=8 (offline 0..=4), max shard bits 0..=10, requested shard bits 0..=max (fewer, equal, more than the bucket bits), a multiset of pairs whose high bits are uniform / all in one shard / in two adjacent shards / all ones / all zeros, with exact duplicates) decoded from bytes; oracle = a hash multiset of (home shard, sig, value) built from the pushed pairs; observed SigStore::len after every push, ShardStore::len, shard_sizes, two borrowed iterations and the consuming one: number of shards, each shard's length, home shard of every pair, multiset equality. Plus one to three offline stores with 512-byte pairs whose single bucket file exceeds 2 GiB (4.2 million pairs; needs about 2.2 GB of temporary disk and 5 GB of memory). Plus an enumerated segment of stores whose single buckets hold 32768..262145 pairs (around 2^15, 2^16, 2^17 pairs and 1 MiB of 8/16/24/32-byte pairs), online and offline, split, equal and aggregate. Non-trivial: at least 2 non-empty shards and shard bits != bucket bits; distinct = distinct hash of the decoded case."
+        "case = (signature type in {[u64;1],[u64;2]}, value type in {u8,u64,usize,EmptyVal}, online/offline (offline with an expected-size hint that is absent, exact, half, 10x+100000 or 2^24), bucket bits 0..=8 (offline 0..=4), max shard bits 0..=10, requested shard bits 0..=max (fewer, equal, more than the bucket bits), a multiset of pairs whose high bits are uniform / all in one shard / in two adjacent shards / all ones / all zeros, with exact duplicates) decoded from bytes; oracle = a hash multiset of (home shard, sig, value) built from the pushed pairs; observed SigStore::len after every push, ShardStore::len, shard_sizes, two borrowed iterations and the consuming one: number of shards, each shard's length, home shard of every pair, multiset equality. Plus one to three offline stores with 512-byte pairs whose single bucket file exceeds 2 GiB (4.2 million pairs; needs about 2.2 GB of temporary disk and 5 GB of memory). Plus an enumerated segment of stores whose single buckets hold 32768..262145 pairs (around 2^15, 2^16, 2^17 pairs and 1 MiB of 8/16/24/32-byte pairs), online and offline, split, equal and aggregate. Non-trivial: at least 2 non-empty shards and shard bits != bucket bits; distinct = distinct hash of the decoded case."
     }
     fn run(&self, data: &[u8], cx: &mut Ctx) -> R {
         let (mode, rest) = data.split_first().unwrap_or((&0, &[]));
